@@ -71,5 +71,5 @@ Definition ex_pad : msg :=
         (Some ([[107; 101; 121]; [101; 120]; []],
                [PU [[104; 109; 97; 99]; []]; PB (repeat 0 8); PB (0 :: 32 :: repeat 7 32); PB [0; 1]; PB [0; 0]; PB [0; 0]])).
 Example padded_with_tsig :
-  exists w, to_wire ex_pad None 0 0 false 128 = Ok w /\ zlen w = 256.
+  exists w, to_wire ex_pad None 0 0 false 128 = Ok w /\ zlen w = 128.
 Proof. eexists. vm_compute. split; reflexivity. Qed.
